@@ -49,7 +49,7 @@ func (b *exampleBuilder) Build(node ischema.Node) ([]byte, error) {
 }
 
 func (b *exampleBuilder) buildExampleForObjectNode(node *ischema.ObjectNode) ([]byte, error) {
-	if node.Constraint(constraint.TypesListConstraintType) != nil {
+	if node.Constraint(constraint.TypesListConstraintType) != nil && len(node.Children()) != 0 {
 		return nil, errs.ErrUserTypeFound.F()
 	}
 
@@ -118,7 +118,7 @@ func escapeJSONString(s string) ([]byte, error) {
 }
 
 func (b *exampleBuilder) buildExampleForArrayNode(node *ischema.ArrayNode) ([]byte, error) {
-	if node.Constraint(constraint.TypesListConstraintType) != nil {
+	if node.Constraint(constraint.TypesListConstraintType) != nil && len(node.Children()) != 0 {
 		return nil, errs.ErrUserTypeFound.F()
 	}
 
@@ -200,7 +200,7 @@ func buildExampleForObjectNode(
 	node *ischema.ObjectNode,
 	types map[string]ischema.Type,
 ) ([]byte, error) {
-	if node.Constraint(constraint.TypesListConstraintType) != nil {
+	if node.Constraint(constraint.TypesListConstraintType) != nil && len(node.Children()) != 0 {
 		return nil, errs.ErrUserTypeFound.F()
 	}
 
@@ -238,7 +238,7 @@ func buildExampleForArrayNode(
 	node *ischema.ArrayNode,
 	types map[string]ischema.Type,
 ) ([]byte, error) {
-	if node.Constraint(constraint.TypesListConstraintType) != nil {
+	if node.Constraint(constraint.TypesListConstraintType) != nil && len(node.Children()) != 0 {
 		return nil, errs.ErrUserTypeFound.F()
 	}
 
